@@ -22,8 +22,8 @@ Record Exported (tinds cinds : list (list nat)) (x : alf_in) (f r : QN) (y : alf
   ex_tamps : y_tamps y = ao_tamps amp_t;
   ex_camps : y_camps y = ao_tamps amp_c;
   ex_cpeak : y_cpeak y = map Z.of_nat (peak_channels (length (x_wmi x)) (x_cdata x));
-  ex_p2t : y_p2t y = set_nan (model_nan_idx (x_st x) (x_sc x)) dur;
-  ex_cdep : y_cdepths y = set_nan (model_nan_idx (x_st x) (x_sc x))
+  ex_p2t : y_p2t y = set_nan (model_nan_idx (x_ncl x) (x_st x) (x_sc x)) dur;
+  ex_cdep : y_cdepths y = set_nan (model_nan_idx (x_ncl x) (x_st x) (x_sc x))
                                   (map (fun c => q_ofZ (posy (x_pos x) c)) (peak_channels (length (x_wmi x)) (x_cdata x)));
   ex_sdep : y_sdepths y = match dep with
                           | Some l => l
@@ -53,7 +53,7 @@ Record WFA (x : alf_in) : Prop := {
   wa_sc : forall s, In s (x_sc x) -> 0 <= s < x_ncl x;
   wa_len : length (x_sc x) = length (x_st x);
   wa_nclosest : 0 <= x_nclosest x;
-  wa_nan : forall i, In i (model_nan_idx (x_st x) (x_sc x)) -> 0 <= i < x_ncl x
+  wa_nan : forall i, In i (model_nan_idx (x_ncl x) (x_st x) (x_sc x)) -> 0 <= i < x_ncl x
 }.
 Lemma wf_alf_WFA x : wf_alf x = true -> WFA x.
 Proof.
@@ -160,7 +160,7 @@ Theorem durations_thm14 : forall tinds cinds x f (rate : Q) y, ~ (rate == 0)%Q -
   export_with tinds cinds x f (Some rate) = Some y ->
   length (y_p2t y) = length (x_cdata x) /\
   forall n t, nth_error (x_cdata x) n = Some t ->
-    if memZ (Z.of_nat n) (model_nan_idx (x_st x) (x_sc x)) then nth_error (y_p2t y) n = Some None
+    if memZ (Z.of_nat n) (model_nan_idx (x_ncl x) (x_st x) (x_sc x)) then nth_error (y_p2t y) n = Some None
     else exists c imax imin q, IsPeakChannel (entry t) (length t) (length (x_wmi x)) c /\
            IsArgmaxFirst imax (column (entry t) (length t) c) /\
            IsArgminFirst imin (column (entry t) (length t) c) /\
@@ -182,7 +182,7 @@ Theorem cluster_depths_thm : forall tinds cinds x f r y, export_with tinds cinds
     exists c, IsPeakChannel (entry t) (length t) (length (x_wmi x)) c /\
               nth_error (y_cpeak y) n = Some (Z.of_nat c) /\
               nth_error (y_cdepths y) n =
-              Some (if memZ (Z.of_nat n) (model_nan_idx (x_st x) (x_sc x)) then None
+              Some (if memZ (Z.of_nat n) (model_nan_idx (x_ncl x) (x_st x) (x_sc x)) then None
                     else Some (inject_Z (posy (x_pos x) c))).
 Proof.
   intros tinds cinds x f r y H. destruct (export_with_inv _ _ _ _ _ _ H) as (amp_t & amp_c & dur & dep & E).
